@@ -343,6 +343,9 @@ func genInputs(kind string, seed int64, n int) []N {
 		add("import rand\nrand.intn(0)")
 		add("import strings\nfunc pad(s, w) {\nreturn s + strings.repeat(\".\", w - len(s))\n}\ntry(func() { return pad(\"abcdef\", 3) }, func(e) { return string(e) })")
 		add("import strings\nt := spawn(func() { return strings.repeat(\"x\", -2) })\nt.wait()")
+		// found by the thorough tier (a mutant): the parser accepts "for init; cond; {" here, the loop has no post
+		// statement, and rendering the tree dereferenced it
+		add("if true {\nn1 := 0\nfor {\nif n1 >= 1 {\nbreak\n}\nn1 ++\n[n1] .append(n1) + n1.append ((- 2) )\n}\n}\nfor i2 := 0; i2 < 3; { {\ni2++\nswitch 1 + 4.5 {\ndefault:\ni2[i2] *= i2\n0\ncase ( - 2) - i2 , - i2 :\nswitch 0 {\ncase 1:\ncontinue\ndefault:\ntrue\n}\ncase float(nil), ({ } )[\"c\"] :\nif true {\nc3 := 6\nfor r4 in c3 {\nif true {\nbreak\n}\nc3 -= 4\n[4 , i2]\n}\n}\nfor i5 := 0; i5 < 1; i5++ {\nv6 := [4, i2, i2]\n}\n}\n}\ng7 := func(p8 ) {\nif true {\nc9 := switch 0 {\ndefault:\ncase (- 1) , p8 :\np8\nfalse\n}\nfor range c9 {\nnil\n3\nc9\n}\n}\np8\np8\n}\n\"abc\"\nfalse\nnil")
 		// loop headers with an empty clause
 		add("x := 0\nfor ; x < 3; x++ {\n}\nx")
 		add("func f() {\nx := 0\nfor ; x < 3; x++ {\nprint(x)\n}\nreturn x\n}\nf()")
